@@ -164,6 +164,32 @@ class Rig:
                 raise ConnectionResetError('Connection lost')
             await asyncio.sleep(0)
         ep.writer.drain = drain
+        ep._verif_close_hold = False
+        ep._verif_close_waiters = []
+
+        async def wait_closed():
+            if ep._verif_close_hold:
+                f = self.loop.create_future()
+                ep._verif_close_waiters.append(f)
+                await f
+            await asyncio.sleep(0)
+        ep.writer.wait_closed = wait_closed
+
+    def begin_close(self, cid: int):
+        """The remote side closes; our disconnect() stays in the CLOSING state (wait_closed pending) until finish_close()."""
+        ep = self.eps[cid]
+        ep._verif_close_hold = True
+        ep.feed_eof()
+        self.settle()
+
+    def finish_close(self, cid: int):
+        ep = self.eps[cid]
+        ep._verif_close_hold = False
+        ws, ep._verif_close_waiters = ep._verif_close_waiters, []
+        for f in ws:
+            if not f.done():
+                f.set_result(None)
+        self.settle()
 
     def child_hold(self, cid: int):
         self.eps[cid]._verif_hold = True
@@ -325,7 +351,7 @@ class Rig:
             return
         self.closed = True
         try:
-            for f in list(getattr(self, 'waiters', [])) + [w for ep in getattr(self, 'eps', {}).values() for w in getattr(ep, '_verif_waiters', [])]:
+            for f in list(getattr(self, 'waiters', [])) + [w for ep in getattr(self, 'eps', {}).values() for w in getattr(ep, '_verif_waiters', []) + getattr(ep, '_verif_close_waiters', [])]:
                 if not f.done():
                     f.cancel()
         except Exception:
